@@ -15,24 +15,30 @@ META = {
     "design_ref": "§6 C20, §5.6",
     "technique": "Lean 4 theorems by structural induction over the type grammar (coercion soundness, no str/sequence confusion, "
     "idempotence) over class tables regenerated from the running interpreter + differential correspondence",
-    "text": "Lean theorems about a model of TypeParser.coerce (pydra/utils/typing.py), for every type of the grammar (classes of a "
-    "28-class universe, Any, Union, list/tuple/dict/set/frozenset/abstract-container generics, tuple[T, ...], MultiInputObj[T]) of "
-    "any depth and every value of any size: an accepted value is stored as a value that conforms to the declared type, element "
-    "types included (C20_sound_partial); a str is only passed through, turned into a path-like atom or wrapped whole by "
-    "MultiInputObj, and a container is never turned into a str (C20_no_str_split_partial, C20_no_seq_join_partial); coercing the "
-    "stored value again returns it unchanged (C20_idem_partial_flatUnions) — each under explicit decidable exclusions for the "
-    "known findings D13/D13b (witness theorems C20_witness_*) whose table-level reason is re-proved by `decide` over the "
-    "issubclass matrix and COERCIBLE/NOT_COERCIBLE tables dumped from the interpreter on every run.  The model is tied to the "
-    "code by running TypeParser(T, superclass_auto_cast)(v) (and a real task field assignment) against the Lean driver on "
-    "generated (type, value) cases, and every constructor call the model makes is re-checked against the interpreter.",
-    "note": "Trusted: Lean kernel; hand-written model of coerce/expand_and_coerce (tie = differential + regenerated class tables and "
-    "360 constructor samples); class universe is finite (no fileformats/numpy classes, no ty.Type, no NOTHING/LazyField/StateArray "
-    "pass-through); generator reach (type depth <= 3).",
+    "text": "Lean theorems about a model of TypeParser.coerce (pydra/utils/typing.py), for every well-formed type of the grammar "
+    "(classes of a 28-class universe, Any, Union, list/tuple/set/frozenset/dict/abstract-container generics, tuple[T, ...], "
+    "MultiInputObj[T]) of any depth and every value of any size, with or without superclass_auto_cast: an accepted value is stored "
+    "as a value that conforms to the declared type, element types included (C20_sound_partial, C20_field_sound_partial for the "
+    "attrs converter of make_converter); a str is only passed through, turned into a path-like atom or wrapped whole by "
+    "MultiInputObj, and a container is never stored as a str (C20_no_str_split_partial, C20_no_seq_join_partial); coercing the "
+    "stored value again returns it unchanged for union-free types (C20_idem_partial_unionFree); a rejected value is rejected by the "
+    "assignment itself and leaves the attribute unchanged (C20_reject_at_assignment).  The partial theorems carry explicit "
+    "decidable exclusions for the findings D13 (str split by set / abstract-sequence patterns), D13b (set joined into a str), "
+    "the bytes restriction (D13c) and, for idempotence, unions (D13u); witness theorems C20_witness_* and "
+    "C20_full_statement_false show the full statement fails on the pinned tree.  The table-level reasons (C20_tables_strSafe, "
+    "C20_tables_noJoin) are re-proved by `decide` over the issubclass matrix and COERCIBLE/NOT_COERCIBLE tables dumped from the "
+    "running interpreter on every run.  The model is tied to the code by running TypeParser(T, superclass_auto_cast)(v) twice "
+    "(idempotence) and a real task-field assignment against the Lean driver on generated (type, value) cases; every constructor "
+    "call the model makes is re-checked against the interpreter (one rfl theorem per observed call).",
+    "note": "Trusted: Lean kernel; hand-written model of coerce/expand_and_coerce (tie = differential + regenerated class tables + "
+    "constructor samples + AST facts of make_converter); class universe is finite (no fileformats/numpy classes, no ty.Type, no "
+    "NOTHING/LazyField/StateArray pass-through); generator reach (type depth <= 3); idempotence is proved for union-free types only.",
     "rule": "case = (superclass_auto_cast, type, value); distinct by canonical JSON; non-trivial = the type is generic/union or the "
     "value is a container or the stored value differs from the assigned one",
     "assumptions": [
         "floats are integral-valued and ints fit a float (OverflowError from float(10**400) is outside the generator)",
         "str/bytes payloads are printable or \\n,\\t,\\r (repr of other control characters is modelled but not generated)",
+        "generated values do not share object identity (dict_values views compare and hash by identity)",
     ],
     "trusted": ["model of TypeParser.coerce written by hand (Typing/Model.lean)", "harness/engines/typing_eng.py (codecs, conforms oracle, match rules)"],
 }
@@ -47,6 +53,7 @@ OBLIGATIONS = [
         "C20_assign_stores_result",
         "C20_no_str_split_partial",
         "C20_no_seq_join_partial",
+        "C20_idem_partial_unionFree",
         "C20_tables_strSafe",
         "C20_tables_noJoin",
         "C20_witness_set",
@@ -276,26 +283,18 @@ def gen_case(rng):
     return {"sac": rng.random() < 0.6, "t": t, "v": v, "stream": stream}
 
 
-WITNESSES = [
-    ("D13", {"sac": True, "t": ["g", "set", [["c", "str"]]], "v": ["a", "str", "abc"], "stream": "corpus"}),
-    ("D13", {"sac": True, "t": ["g", "Sequence", [["c", "str"]]], "v": ["a", "str", "abc"], "stream": "corpus"}),
-    ("D13b", {"sac": True, "t": ["c", "str"], "v": ["s", "set", [["a", "int", 1], ["a", "int", 2]]], "stream": "corpus"}),
-    ("D13c", {"sac": True, "t": ["g", "Sequence", [["c", "bool"]]], "v": ["a", "bytes", [97, 98]], "stream": "corpus"}),
-    ("D13u", {"sac": False, "t": ["u", [["c", "frozenset"], ["c", "tuple"]]], "v": ["s", "set", [["a", "int", 1], ["a", "int", 2]]], "stream": "corpus"}),
-]
-# regression corpus: near misses of the findings that must NOT be accepted / must stay well-behaved
-CORPUS = [
-    {"sac": True, "t": ["g", "list", [["c", "str"]]], "v": ["a", "str", "abc"], "stream": "corpus"},
-    {"sac": True, "t": ["g", "tuple", [["c", "str"], ["c", "str"], ["c", "str"]]], "v": ["a", "str", "abc"], "stream": "corpus"},
-    {"sac": True, "t": ["tv", ["c", "str"]], "v": ["a", "str", "abc"], "stream": "corpus"},
-    {"sac": True, "t": ["g", "MutableSequence", [["c", "str"]]], "v": ["a", "str", "abc"], "stream": "corpus"},
-    {"sac": True, "t": ["c", "list"], "v": ["a", "str", "abc"], "stream": "corpus"},
-    {"sac": True, "t": ["c", "str"], "v": ["s", "list", [["a", "str", "a"], ["a", "str", "b"]]], "stream": "corpus"},
-    {"sac": True, "t": ["c", "str"], "v": ["s", "tuple", [["a", "str", "a"]]], "stream": "corpus"},
-    {"sac": True, "t": ["g", "MultiInputObj", [["c", "str"]]], "v": ["a", "str", "abc"], "stream": "corpus"},
-    {"sac": True, "t": ["g", "dict", [["c", "str"], ["c", "int"]]], "v": ["a", "str", "abc"], "stream": "corpus"},
-    {"sac": False, "t": ["g", "Sequence", [["c", "int"]]], "v": ["a", "bytes", [97, 98]], "stream": "corpus"},
-]
+def _load_corpus():
+    """corpus/typing/c20.jsonl: witnesses of the known findings (finding != null) and regression cases
+    (near misses that must stay rejected / accepted connections that must keep working)."""
+    wit, reg = [], []
+    for line in (core.VERIF / "corpus" / "typing" / "c20.jsonl").read_text().splitlines():
+        if line.strip():
+            rec = json.loads(line)
+            (wit.append((rec["finding"], rec["case"])) if rec["finding"] else reg.append(rec["case"]))
+    return wit, reg
+
+
+WITNESSES, CORPUS = _load_corpus()
 
 
 def correspondence(ctx):
